@@ -14,7 +14,7 @@ IsEvent(e) == l <= Len(Trace) /\ Trace[l].ev = e /\ l' = l + 1
 
 TInit == l = 1 /\ Init
 TPut == /\ IsEvent("Put") /\ Ev.detail = ""
-        /\ Put(Ev.form, Ev.abs, Ev.path)
+        /\ Put(Ev.form, Ev.abs, Ev.path, {Ev.stored})
         /\ accepted' = Ev.accepted /\ stored' = Ev.stored
         \* an accepted reference to a file strictly inside the root can be read back
         /\ (Ev.accepted /\ Ev.abs /\ StrictlyInside(Ev.path)) => Ev.got = "ok"
